@@ -948,6 +948,13 @@ class Evaluator:
             r = self.inline_closure(fr, f, args, kws, line)
             if r is not None:
                 return r
+        # functional array update  X.at[idx].set(v)  ==  X with slot idx replaced by v
+        if f.op == "attr" and f.args[1] == "set" and len(args) == 1 and not kws:
+            tgt = f.args[0]
+            if tgt.op == "getitem" and tgt.args[0].op == "attr" and tgt.args[0].args[1] == "at":
+                t = setitem(tgt.args[0].args[0], tgt.args[1], args[0])
+                self.note_line(t, line)
+                return t
         if self.inline_policy is not None and self._depth < self.MAX_INLINE_DEPTH \
                 and f.op in ("attr", "fn"):
             cands = self.resolve_callees(f, fr)
